@@ -549,7 +549,7 @@ def origin(body, op_or_place, depth=16, carriers=CARRIERS):
     if isinstance(op_or_place, dict):
         k = op_const(op_or_place)
         if k is not None:
-            return ("const", k)
+            return ("const", body.resolve_const(k))
         pl = op_place(op_or_place)
     else:
         pl = op_or_place
@@ -577,14 +577,14 @@ def origin(body, op_or_place, depth=16, carriers=CARRIERS):
                     a = t["args"][carriers[last]]
                     k = op_const(a)
                     if k is not None:
-                        return ("const", k)
+                        return ("const", body.resolve_const(k))
                     pl = op_place(a)
                     continue
             return ("call", b, t)
         if rv["k"] in ("use", "cast"):
             k = op_const(rv["op"])
             if k is not None:
-                return ("const", k)
+                return ("const", body.resolve_const(k))
             pl = op_place(rv["op"])
             continue
         if rv["k"] == "ref":
